@@ -36,9 +36,11 @@ Init == /\ strategy \in Strategies /\ fallback \in Fallbacks /\ refresh \in BOOL
         /\ phase = "cfg" /\ served = "none"
         \* D: endpoints that listed the model at boot and dropped it in a later listing of the same size;
         \* ch: the client sends its body chunked
+        \* rl: how the endpoints in D re-listed -- the model swapped for another one, or nothing listed at all
         /\ \E u \in BOOLEAN : \E rt \in {"proxy", "provider"} : \E D \in SUBSET (EP \ L) : \E ch \in BOOLEAN :
+           \E rl \in {"swap", "empty"} : (D = {} => rl = "swap") /\
               scn = [strategy |-> strategy, fallback |-> fallback, refresh |-> refresh,
-                     H |-> H, L |-> L, unifier |-> u, route |-> rt, D |-> D, chunked |-> ch]
+                     H |-> H, L |-> L, unifier |-> u, route |-> rt, D |-> D, chunked |-> ch, relist |-> rl]
 
 Send == phase = "cfg" /\ phase' = "sent" /\ UNCHANGED <<strategy, fallback, refresh, H, L, served, scn>>
 \* the request reaches backend e: only a target of the decision may be contacted (C09 safety)
@@ -52,8 +54,11 @@ Answer(st, hs, hd) ==
        THEN st = 200                                   \* backends answer 200 in these scenarios
        ELSE /\ Targets = {} \/ H = {}                  \* nobody was contacted only if nobody could be
             /\ st >= 400
-            \* 404 not found / 503 unavailable; with no healthy endpoint at all either reading is accepted
-            /\ (Action = "rejected" => IF H # {} THEN st = RejectStatus ELSE st \in {404, 503})
+            \* 404 not found / 503 unavailable; with no healthy endpoint at all AND nobody listing the model
+            \* either reading is accepted ("no endpoint lists it" and "nothing is available" are both true)
+            \* (on a provider route with no healthy endpoint the provider filter answers before model routing
+            \* is consulted; C11 only asks for "an error" there)
+            /\ (Action = "rejected" => IF H # {} \/ (L # {} /\ scn.route = "proxy") THEN st = RejectStatus ELSE st \in {404, 503})
     \* the headers, whenever present, agree with what was actually done
     /\ (hs # "" => hs = strategy)
     \* (when there was nobody to send it to, reporting the outcome as "rejected" also agrees with what was done)
